@@ -565,8 +565,14 @@ def structures(draw, max_res=40, min_res=2, allow_ball=True, allow_hetero=True, 
                 d0 = draw(st.integers(0, len(DIRECTIONS) - 1))
                 rot = pdbio.ROTATIONS[draw(st.integers(0, 23))]
                 hchain = draw(st.sampled_from([anchor.chain, anchor.chain, "L", "H"]))
+                same_number = False
                 if prev is not None and (resn, mol, kindl) == prev[:3]:
-                    hchain = prev[3]
+                    if draw(st.booleans()):
+                        hchain = prev[3]
+                    else:
+                        # per-chain ligands of a dimer: other chain, same residue number, records back to back
+                        hchain = "M" if prev[3] != "M" else "L"
+                        same_number = True
                 prev = (resn, mol, kindl, hchain)
                 placed = None
                 for k in range(6):
@@ -574,7 +580,7 @@ def structures(draw, max_res=40, min_res=2, allow_ball=True, allow_hetero=True, 
                     nrm = math.sqrt(_dot(d, d))
                     origin = (anchor.x + int(d[0] * dist / nrm), anchor.y + int(d[1] * dist / nrm),
                               anchor.z + int(d[2] * dist / nrm))
-                    cand = hetero_residue(resn, mol, hchain, hnum, rot, origin)
+                    cand = hetero_residue(resn, mol, hchain, hnum - 1 if same_number else hnum, rot, origin)
                     if all(pdbio.COORD_MIN < v < pdbio.COORD_MAX for a in cand for v in a.xyz) and \
                             not any(grid.near(a, 2600) for a in cand):
                         placed = cand
